@@ -51,3 +51,27 @@ Proof.
     rewrite Hhd. cbn [bind]. rewrite pc_offset. cbn [bind]. reflexivity.
   - cbn [q_meth q_target q_version q_hdrs q_offset]. repeat split; assumption.
 Qed.
+
+(* the same with the Content-Length condition stated by the independent value grammar *)
+From KV Require Import Spec.HeaderStore Spec.ClSpec Proofs.Headers.
+Lemma cl_consistent_rfc_eq fs : cl_consistent_rfc fs = cl_consistent fs.
+Proof.
+  unfold cl_consistent_rfc, cl_consistent, cl_values_rfc, cl_values.
+  rewrite (filter_ext (fun nv => eq_ic (fst nv) CONTENT_LENGTH) (fun nv => same_name (fst nv) (bs "content-length")))
+    by (intros a; apply eq_ic_same).
+  rewrite (map_ext (fun nv : bytes * bytes => parse_content_length (snd nv)) (fun nv => cl_value (snd nv)))
+    by (intros a; apply parse_content_length_spec).
+  reflexivity.
+Qed.
+
+Theorem request_complete_rfc : forall h t,
+  rfc_head h = true -> cl_consistent_rfc (field_pairs h) = true ->
+  exists r, parse_request (render h ++ t) = Ok r /\
+    method_str (q_meth r) = h_method h /\
+    full (q_target r) = render_target (h_target h) /\
+    uri_path (q_target r) = Ok (target_path (h_target h)) /\
+    uri_query (q_target r) = Ok (target_query (h_target h)) /\
+    q_version r = (if h_minor h then 1 else 0)%N /\
+    q_hdrs r = headers_of (field_pairs h) /\
+    q_offset r = length (render h).
+Proof. intros h t Hr Hc. rewrite cl_consistent_rfc_eq in Hc. exact (request_complete h t Hr Hc). Qed.
